@@ -17,6 +17,7 @@ import numpy as np  # noqa: E402
 from pams.agents.fcn_agent import FCNAgent  # noqa: E402
 from pams.logs.base import Logger  # noqa: E402
 from pams.market import Market  # noqa: E402
+from pams.events.base import EventABC, EventHook  # noqa: E402
 from pams.runners.sequential import SequentialRunner  # noqa: E402
 
 
@@ -90,18 +91,56 @@ class ExtendedMarket(Market):              # the market_share sample's market cl
             self._executed_volumes = [int(settings["tradeVolume"])]
 
 
+class DetEvent(EventABC):
+    """a user-written event hooked on everything: what it is told is part of the observable record of a run"""
+
+    def hook_registration(self):
+        hooks = [EventHook(event=self, hook_type=t, is_before=b) for t in ("order", "cancel", "session", "market") for b in (True, False)]
+        hooks.append(EventHook(event=self, hook_type="execution", is_before=False))
+        return hooks
+
+    def hooked_before_order(self, simulator, order):
+        REC.append("ev|bo|%d|%d" % (order.market_id, order.agent_id))
+
+    def hooked_after_order(self, simulator, order_log):
+        REC.append("ev|ao|%d|%d|%d" % (order_log.market_id, order_log.order_id, order_log.time))
+
+    def hooked_before_cancel(self, simulator, cancel):
+        REC.append("ev|bc|%d|%d" % (cancel.order.market_id, cancel.order.order_id))
+
+    def hooked_after_cancel(self, simulator, cancel_log):
+        REC.append("ev|ac|%d|%d|%d" % (cancel_log.market_id, cancel_log.order_id, cancel_log.cancel_time))
+
+    def hooked_after_execution(self, simulator, execution_log):
+        REC.append("ev|ae|%d|%d|%d|%d" % (execution_log.market_id, execution_log.buy_order_id, execution_log.sell_order_id, execution_log.time))
+
+    def hooked_before_session(self, simulator, session):
+        REC.append("ev|bs|%d" % session.session_id)
+
+    def hooked_after_session(self, simulator, session):
+        REC.append("ev|as|%d" % session.session_id)
+
+    def hooked_before_step_for_market(self, simulator, market):
+        REC.append("ev|bm|%d|%d|%s" % (market.market_id, market.get_time(), fx(market.get_market_price())))
+
+    def hooked_after_step_for_market(self, simulator, market):
+        REC.append("ev|am|%d|%d|%s" % (market.market_id, market.get_time(), fx(market.get_market_price())))
+
+
 REC = []
+NOT_FROM_LOGGER = ("cbS|", "cbE|", "ev|", "series|", "hold|")
 
 
-def run_once(cfg, seed, rec):
+def run_once(cfg, seed, rec, with_logger=True):
     global REC
     REC = rec
     out = io.StringIO()
     with contextlib.redirect_stdout(out), warnings.catch_warnings():
         warnings.simplefilter("ignore")
-        runner = SequentialRunner(settings=cfg, prng=random.Random(seed), logger=DetLogger(rec))
+        runner = SequentialRunner(settings=cfg, prng=random.Random(seed), logger=DetLogger(rec) if with_logger else None)
         runner.class_register(UserDefinedFCNAgent)
         runner.class_register(ExtendedMarket)
+        runner.class_register(DetEvent)
         runner.main()
     sim = runner.simulator
     for m in sim.markets:
@@ -158,6 +197,12 @@ def main():
     run_once(settings, seed, rec)
     smut = json.dumps(settings, sort_keys=True) != before
     rec2 = None
+    if mode == "nologger":
+        # the same configuration and seed WITHOUT a logger (the runner's default): everything that does not come from the logger
+        # - notifications of user agents and user events, price series, holdings - is the same
+        rec2 = []
+        run_once(copy.deepcopy(cfg), seed, rec2, with_logger=False)
+        rec = [x for x in rec if x.startswith(NOT_FROM_LOGGER)]
     if mode == "twice":
         rec2 = []
         run_once(settings, seed, rec2)             # the SAME settings object again
